@@ -69,10 +69,17 @@ type c13LadnInd struct {
 func c13SnssaiExec(c *core.Ctx, in c13Snssai) {
 	fail := func(k, w string) { c.FailCase("snssai|"+k, w, "snssai", in) }
 	var enc, rej []byte
+	shared := false
 	pi := core.Try(func() {
-		enc = nasConvert.SnssaiToNas(models.Snssai{Sst: int32(in.Sst), Sd: in.Sd})
-		rej = nasConvert.RejectedSnssaiToNas(models.Snssai{Sst: int32(in.Sst), Sd: in.Sd}, 1)
+		var ok1, ok2 bool
+		enc, ok1 = scribbleRecall(func() []byte { return nasConvert.SnssaiToNas(models.Snssai{Sst: int32(in.Sst), Sd: in.Sd}) })
+		rej, ok2 = scribbleRecall(func() []byte { return nasConvert.RejectedSnssaiToNas(models.Snssai{Sst: int32(in.Sst), Sd: in.Sd}, 1) })
+		shared = !ok1 || !ok2
 	})
+	if pi == nil && shared {
+		fail("result-shared-between-calls", "SnssaiToNas / RejectedSnssaiToNas: after the caller overwrote the first result a second call returns different octets")
+		return
+	}
 	if pi != nil {
 		fail(pi.Key(), "panics: "+pi.Msg)
 		return
@@ -242,7 +249,16 @@ func c13SameTais(got []refconv.Tai, want []c13Tai) bool {
 
 func c13TaiExec(c *core.Ctx, in c13TaiList) {
 	var enc []byte
-	pi := core.Try(func() { enc = nasConvert.TaiListToNas(c13Tais(in.Tais)) })
+	shared := false
+	pi := core.Try(func() {
+		var ok bool
+		enc, ok = scribbleRecall(func() []byte { return nasConvert.TaiListToNas(c13Tais(in.Tais)) })
+		shared = !ok
+	})
+	if pi == nil && shared {
+		c.FailCase("tailist|result-shared-between-calls", "TaiListToNas: after the caller overwrote the first result a second call returns different octets", "tailist", in)
+		return
+	}
 	if pi != nil {
 		c.FailCase("tailist|"+pi.Key(), "panics: "+pi.Msg, "tailist", in)
 		return
@@ -264,7 +280,16 @@ func c13ServiceExec(c *core.Ctx, in c13Service) {
 		tacs = append(tacs, a...)
 	}
 	var enc []byte
-	pi := core.Try(func() { enc = nasConvert.PartialServiceAreaListToNas(models.PlmnId{Mcc: in.Mcc, Mnc: in.Mnc}, r) })
+	shared := false
+	pi := core.Try(func() {
+		var ok bool
+		enc, ok = scribbleRecall(func() []byte { return nasConvert.PartialServiceAreaListToNas(models.PlmnId{Mcc: in.Mcc, Mnc: in.Mnc}, r) })
+		shared = !ok
+	})
+	if pi == nil && shared {
+		c.FailCase("servicearea|result-shared-between-calls", "PartialServiceAreaListToNas: after the caller overwrote the first result a second call returns different octets", "servicearea", in)
+		return
+	}
 	if pi != nil {
 		c.FailCase("servicearea|"+pi.Key(), "panics: "+pi.Msg, "servicearea", in)
 		return
@@ -284,7 +309,16 @@ func c13ServiceExec(c *core.Ctx, in c13Service) {
 func c13LadnExec(c *core.Ctx, in c13Ladn) {
 	dnn := unhex(in.Dnn)
 	var enc []byte
-	pi := core.Try(func() { enc = nasConvert.LadnToNas(string(dnn), c13Tais(in.Tais)) })
+	shared := false
+	pi := core.Try(func() {
+		var ok bool
+		enc, ok = scribbleRecall(func() []byte { return nasConvert.LadnToNas(string(dnn), c13Tais(in.Tais)) })
+		shared = !ok
+	})
+	if pi == nil && shared {
+		c.FailCase("ladn|result-shared-between-calls", "LadnToNas: after the caller overwrote the first result a second call returns different octets", "ladn", in)
+		return
+	}
 	if pi != nil {
 		c.FailCase("ladn|"+pi.Key(), "panics: "+pi.Msg, "ladn", in)
 		return
